@@ -270,6 +270,20 @@ fn gen_workload(rng: &mut Rng, t: u64, n: u64, probes: bool) -> Vec<Value> {
     let mut depth = 0;
     // half of the operations concentrate on one slot so that create / enter / create-inside chains form
     let hot = rng.below(NSLOTS as u64) as usize;
+    if rng.chance(1, 4) {
+        // a chain 3-4 deep at seeded sites (so that some leaves miss spans in its middle), then events below it:
+        // contextual, and with one of the chain's spans as explicit parent
+        let k = rng.range(3, 4).min(NSLOTS as u64);
+        for i in 0..k {
+            v.push(json!({"t": t, "op": "span", "slot": i, "site": rng.below(20)}));
+            v.push(json!({"t": t, "op": "enter", "slot": i}));
+            has[i as usize] = true;
+            depth += 1;
+        }
+        v.push(json!({"t": t, "op": "event", "site": rng.below(20)}));
+        v.push(json!({"t": t, "op": "event_in", "slot": rng.below(k), "site": rng.below(20)}));
+        v.push(json!({"t": t, "op": "span", "slot": (k as usize) % NSLOTS, "site": rng.below(20)}));
+    }
     for _ in 0..n {
         let slot = if rng.chance(1, 2) { hot } else { rng.below(NSLOTS as u64) as usize };
         let site = rng.below(20);
